@@ -194,10 +194,21 @@ pub fn run(ctx: &Ctx) -> ! {
     let mut uni_f = Universe::sverif();
     uni_f.datasets.retain(|d| matches!(d.name.as_str(), "counts0123" | "fan3" | "diamond"));
     let stats_fold = if ctx.elapsed() < ctx.budget_s() { Some(corpus::drive(ctx, &uni_f, &cfg_f, &|_cq| {}, &|case| check_case(ctx, &uni_f, case, &counters, &samples), &|_text, _p| {})) } else { None };
+    // fourth space: every arrangement of three edges (next / one; plain, @optional, @fold, @recurse(2)),
+    // each carrying an output: nested combinations such as a fold inside an optional inside a recursion
+    let cfg_e3 = crate::qgen::GenCfg { allow: Some(vec!["E"]), e_names: Some(vec!["next", "one"]), e_contents: vec![1], recurse_depths: vec![2], naming_devs: false, max_vertices: 4, ..Default::default() };
+    let three: Vec<qast::Query> = crate::qgen::enumerate(sm, &[crate::qgen::skeleton()], 3, &cfg_e3).into_iter().skip(3).flatten().collect();
+    let mut cfg_3 = CorpusCfg::new(ctx.tier.pick(0, 1));
+    cfg_3.seeds = three;
+    cfg_3.gen = crate::qgen::GenCfg { allow: Some(vec!["Fco", "Pf", "C"]), naming_devs: false, ..Default::default() };
+    let mut uni_3 = Universe::sverif();
+    uni_3.datasets.retain(|d| matches!(d.name.as_str(), "diamond" | "fan3" | "chain4" | "twocycle" | "selfloop"));
+    let stats_three = if ctx.elapsed() < ctx.budget_s() { Some(corpus::drive(ctx, &uni_3, &cfg_3, &|_cq| {}, &|case| check_case(ctx, &uni_3, case, &counters, &samples), &|_text, _p| {})) } else { None };
     let mut c = cov();
+    c.insert("corpus_three_edge_structures".into(), json!(stats_three.as_ref().map(|s| s.to_json())));
     c.insert("corpus_one_fold_count_deviations".into(), json!(stats_fold.as_ref().map(|s| s.to_json())));
     c.insert("corpus_tiny_datasets".into(), json!({"family_size": tiny_total, "datasets_used": uni_tiny.datasets.len(), "stats": stats_tiny.as_ref().map(|s| s.to_json())}));
-    c.insert("evaluations".into(), json!(stats.cases + stats_tiny.as_ref().map(|s| s.cases).unwrap_or(0) + stats_fold.as_ref().map(|s| s.cases).unwrap_or(0)));
+    c.insert("evaluations".into(), json!(stats.cases + stats_tiny.as_ref().map(|s| s.cases).unwrap_or(0) + stats_fold.as_ref().map(|s| s.cases).unwrap_or(0) + stats_three.as_ref().map(|s| s.cases).unwrap_or(0)));
     c.insert("distinct_nontrivial".into(), json!(nontrivial.lock().unwrap().len()));
     c.insert("rule".into(), json!("every query within k deviations of the skeletons (menu in DESIGN.md 3.3) accepted by the real frontend x 10 curated datasets x every argument map over the per-variable domains, plus every query within 1 deviation x the exhaustive family of graphs with <= 2 vertices (5220 graphs; every 4th in the quick tier); engine rows (multiset) compared with the reference evaluator; non-trivial = distinct (query, dataset) pairs whose query has at least one of optional/fold/recurse/tag"));
     c.insert("corpus".into(), stats.to_json());
@@ -206,7 +217,7 @@ pub fn run(ctx: &Ctx) -> ! {
     c.insert("cases_skipped_oracle_undefined".into(), json!(counters.undefined.load(Ordering::Relaxed)));
     c.insert("cases_rejected_by_argument_validation".into(), json!(counters.arg_rejected.load(Ordering::Relaxed)));
     c.insert("samples".into(), json!(samples.lock().unwrap().items));
-    c.insert("exhaustive".into(), json!(!stats.capped && stats_tiny.as_ref().map(|s| !s.capped).unwrap_or(false) && stats_fold.as_ref().map(|s| !s.capped).unwrap_or(false)));
+    c.insert("exhaustive".into(), json!(!stats.capped && stats_tiny.as_ref().map(|s| !s.capped).unwrap_or(false) && stats_fold.as_ref().map(|s| !s.capped).unwrap_or(false) && stats_three.as_ref().map(|s| !s.capped).unwrap_or(false)));
     ctx.finish(
         "exploration",
         c,
